@@ -336,6 +336,13 @@ class Builtins(BuiltinCalls, ContainerCalls):
     def dict_get(self, state: State, p: Ptr, key, node, strict: bool, default: Optional[Val] = None) -> Val:
         d = self.I.deref(state, p)
         o, env = d
+        if strict and "defaultdict" in o.flags:
+            # collections.defaultdict: a missing key yields factory() (and stores it; the store is subsumed by the summary)
+            fac = self.I.default_factories.get(p.loc)
+            dv = self.I.call_value(fac, [], {}, node, state) if fac is not None and not isinstance(fac, NoneV) else None
+            if dv is not None and not state.bottom:
+                cur = self.dict_get_plain(state, p, key, node)
+                return dv if cur is None else join_val(cur, dv)
         ck = _ckey(key)
         if o.fixed is not None and ck is not None:
             for k, v in o.fixed:
@@ -367,6 +374,25 @@ class Builtins(BuiltinCalls, ContainerCalls):
         if not strict:
             v = join_val(v, default if default is not None else NoneV())
         return v
+
+    def dict_get_plain(self, state: State, p: Ptr, key, node) -> Optional[Val]:
+        """Value stored under key if any may exist (None when the dict is certainly empty)."""
+        o, env = self.I.deref(state, p)
+        if o.length.hi == 0:
+            return None
+        ck = _ckey(key)
+        if o.fixed is not None:
+            vals = [v for k, v in o.fixed if ck is None or k == ck]
+            if not vals:
+                return None
+            out: Val = Bottom()
+            for v in vals:
+                out = join_val(out, v)
+            return subst_val(out, env) if env else out
+        v = o.val
+        if o.keyed is not None and isinstance(key, (Num, Bool)):
+            v = subst_val(v, {o.keyed[0]: self.I.index_term(key)})
+        return subst_val(v, env) if env else v
 
     def dict_set(self, state: State, p: Ptr, key, v: Val, node) -> None:
         c = state.heap[p.loc]
